@@ -1,0 +1,22 @@
+//go:build verif
+
+package packet
+
+import "time"
+
+// Hooks for the verification harness under /verif. Compiled only with
+// -tags verif; add-only, no existing line is touched.
+
+// VerifPurge exposes the time-parameterised purge.
+func (h *Session) VerifPurge(now time.Time) error { return h.purge(now) }
+
+// VerifPingWaiters returns the number of pending ping waiter entries and the next id.
+func VerifPingWaiters() (n int, nextID uint16) {
+	icmpTable.Lock()
+	defer icmpTable.Unlock()
+	return len(icmpTable.table), icmpTable.id
+}
+
+// VerifSetMonitorNICFrequency overrides the NIC monitor period (default 3 minutes,
+// after which an idle process is sent SIGTERM). Must be called before NewSession.
+func VerifSetMonitorNICFrequency(d time.Duration) { monitorNICFrequency = d }
